@@ -31,6 +31,8 @@ func init() {
 				// the two directions differ in the info label only: the key derivation and AEAD wrappers must route salt, info, key, nonce
 				// and associated data to the primitive in their positions (shared with C04-R3)
 				c04r3(c)
+				passThrough(c, "C05")
+				copySourcesAreWritten(c, "crypto", "crypto/hkdf", "crypto/chacha20poly1305", "crypto/curve25519", "hap/pair", "hap")
 			}},
 			{ID: "C05-R4", Title: "plaintext only from a checked open; the first failure is fatal", Decides: "nothing but an unmodified prefix is released; error no later than the first altered frame", Floor: 4, Run: func(c *core.Ctx) { c05r4(c); sessionOutlivesReadErrors(c) }},
 			{ID: "C05-R5", Title: "tag width", Decides: "full 16-byte tag is verified", Floor: 2, Run: c05r5},
